@@ -203,7 +203,8 @@ func (e *Engine) symTypeMethod(st *SymType, name string, args []Value) Value {
 		return structField(fmt.Sprintf("F%d", i), IfaceV{typ: rtypeMarker, v: RType{sym: st.fields[i]}}, 0, i, false)
 	case "Elem":
 		if st.elem == nil {
-			panic(goPanic{"reflect: Elem of invalid type"})
+			// leaves are constrained not to be arrays: this call sits under an infeasible guard
+			return IfaceV{typ: rtypeMarker, v: RType{sym: &SymType{kind: bv(kUint8, 64), name: "dummy"}}}
 		}
 		return IfaceV{typ: rtypeMarker, v: RType{sym: st.elem}}
 	case "Name":
